@@ -161,34 +161,279 @@ def buildFuel {P : Type} (B : Builder P) (dflt : P) : Nat → TypeId → P
   | 0, _ => dflt
   | n + 1, ty => B.combine ty ((B.deps ty).map (buildFuel B dflt n))
 
-/-! ## (b) the reusable encoder -/
+/-! ## (b) the reusable encoder
+
+State that survives between two calls on one `ttlv.Encoder`, modelled as it is laid out in Go:
+
+* the version cell `extension.version` (ttlv/version.go), shared with every nested `Encoder` made by `Struct`;
+* the output buffer: a Go byte slice (`ttlvWriter.buf`) or a `bytes.Buffer` (XML / JSON / text). `Clear` does
+  `buf = buf[:0]` / `buf.Reset()`: the backing array is KEPT, with its capacity and its old content — the bytes
+  of earlier messages are still there beyond `len` (`GoBuf.stale`), and `Bytes()` hands out a slice that ALIASES
+  the array (`View`);
+* writer-local state: for XML the `xml.Encoder` (element stack, indentation state, its `bufio` buffer);
+  the binary, JSON and text writers keep their nesting state (`off`, `indent`, `originalLen`) on the Go call
+  stack — the `SFrame`s below, which vanish when a call panics and is recovered.
+
+A call is a sequence of writer calls (`Integer`, …, `Struct(tag, f)` = `open … close`). The text of a token (tag
+and type names, value formatting) is a stateless function of the token and of the init-time registries: the
+parameter `Render`. Everything that depends on state — where the bytes land, indentation, separators, the
+self-closing-tag and trailing-comma surgery on the buffer, the length placeholder patched afterwards — is
+spelled out. -/
 
 inductive Backend where
   | ttlv | xml | json | text
   deriving Repr, DecidableEq, Inhabited
 
-/-- what an `encode` call that PANICS half-way (and is recovered by the caller) leaves behind: the cell may
-    have been set by a header already written, part of the output is in the buffer, structures are open.
-    The model does not compute it: it is an arbitrary parameter of the operation. -/
-structure Junk where
-  cell   : Option Ver := none
-  items  : List Item := []
-  opened : Nat := 0
-  deriving Repr, Inhabited
+/-- a Go `[]byte` with spare capacity / a `bytes.Buffer` never read from: `vis = buf[0:len]` is what `Bytes()`
+    shows, `stale = buf[len:cap]` is the rest of the backing array (zeroes after an allocation, remnants of
+    earlier content after `buf[:0]`, `Reset` or `Truncate`); `gen` names the backing array (a reallocation
+    makes a new one; the old one is never written again). -/
+structure GoBuf where
+  vis   : Bytes := []
+  stale : Bytes := []
+  gen   : Nat := 0
+  deriving Repr, Inhabited, DecidableEq
 
-/-- state of an `Encoder` between two calls.
-    `buf` lists the top-level items written since the last `Clear`; every back end's `Bytes()` is a function
-    of it (binary: `encList`; JSON: the top-level `jsonWriter.indent` is always 0 because `Struct` works on a
-    copy with `indent+1`; text: `hide` is fixed at construction; XML: a fresh `xml.Encoder` per `Clear`). -/
+namespace GoBuf
+
+/-- the backing array `buf[0:cap]`. -/
+def mem (b : GoBuf) : Bytes := b.vis ++ b.stale
+def cap (b : GoBuf) : Nat := b.vis.length + b.stale.length
+
+/-- capacity after a reallocation that must hold `need` bytes (Go: `growslice` / `bytes.Buffer.grow`, rounded
+    up to a size class; only `≥ need` matters here — nothing observable depends on the policy). -/
+def growCap (old need : Nat) : Nat := max need (2 * old)
+
+/-- `append(buf, xs...)` / `bytes.Buffer.Write(xs)`: in place when the capacity suffices (OVERWRITING the
+    stale bytes), else into a new, larger array whose tail is zeroed. -/
+def append (b : GoBuf) (xs : Bytes) : GoBuf :=
+  if xs.length ≤ b.stale.length then { b with vis := b.vis ++ xs, stale := b.stale.drop xs.length }
+  else
+    let n := b.vis.length + xs.length
+    { vis := b.vis ++ xs, stale := List.replicate (growCap b.cap n - n) 0, gen := b.gen + 1 }
+
+/-- `buf = buf[:n]` / `bytes.Buffer.Truncate(n)` (`n ≤ len`): nothing is erased. -/
+def truncate (b : GoBuf) (n : Nat) : GoBuf :=
+  { b with vis := b.vis.take n, stale := b.vis.drop n ++ b.stale }
+
+/-- `buf = buf[:0]` / `bytes.Buffer.Reset()`. -/
+def reset (b : GoBuf) : GoBuf := b.truncate 0
+
+/-- `binary.BigEndian.AppendUint32(buf[:off], x)` with the result dropped (ttlvWriter.Struct): the bytes are
+    written at `off` if they fit the CAPACITY (whatever `len` is); otherwise `append` works on a copy and this
+    buffer is untouched. -/
+def patch (b : GoBuf) (off : Nat) (xs : Bytes) : GoBuf :=
+  if off + xs.length ≤ b.cap then
+    let m := b.mem.take off ++ xs ++ b.mem.drop (off + xs.length)
+    { b with vis := m.take b.vis.length, stale := m.drop b.vis.length }
+  else b
+
+end GoBuf
+
+/-- a slice returned by `Bytes()`: `array[0:n]` of backing array `gen`; `snap` = its content when it was
+    returned. -/
+structure View where
+  gen  : Nat
+  n    : Nat
+  snap : Bytes
+  deriving Repr, Inhabited, DecidableEq
+
+/-- what the caller sees NOW through a slice obtained earlier, the encoder's buffer being `b`: the current
+    content of the array if the encoder still writes into that array, else (the encoder moved to a larger
+    array and never touches the old one again) the content it had. -/
+def View.read (v : View) (b : GoBuf) : Bytes :=
+  if v.gen = b.gen then b.mem.take v.n else v.snap
+
+/-- the `xml.Encoder` owned by `xmlWriter` (encoding/xml `printer`, with `Indent("", "    ")`), as far as
+    `xmlWriter` drives it. `pend` is the content of its `bufio.Writer` not yet flushed into the `bytes.Buffer`
+    (bufio flushes by itself when 4096 bytes are pending; `xmlWriter` reads `buf.Len()` only right after a
+    `Flush`, so the moment of the transfer is not observable and `pend` is unbounded here). -/
+structure XmlEnc where
+  tags       : List Nat := []     -- `printer.tags`: the open elements (by the TTLV tag they were made from)
+  depth      : Nat := 0
+  indentedIn : Bool := false
+  putNewline : Bool := false
+  pend       : Bytes := []
+  closed     : Bool := false      -- `Close()` was called: only the OLD `xmlWriter.Clear` did that
+  deriving Repr, Inhabited, DecidableEq
+
+/-- four blanks per level (`Indent("", "    ")`, `jsonWriter.writeIndent`, `textWriter.writeIndent`). -/
+def ind (d : Nat) : Bytes := List.replicate (4 * d) 32
+
+namespace XmlEnc
+
+/-- the tail of `printer.writeIndent`: a newline except before the very first token, then the indentation. -/
+def nl (e : XmlEnc) : XmlEnc :=
+  let e1 := if e.putNewline then { e with pend := e.pend ++ [10] } else { e with putNewline := true }
+  { e1 with pend := e1.pend ++ ind e1.depth }
+
+/-- `writeIndent(1)`. -/
+def indentIn (e : XmlEnc) : XmlEnc :=
+  let e1 := e.nl
+  { e1 with depth := e1.depth + 1, indentedIn := true }
+
+/-- `writeIndent(-1)`: an end tag directly after its start tag stays on the same line. -/
+def indentOut (e : XmlEnc) : XmlEnc :=
+  let e1 := { e with depth := e.depth - 1 }
+  if e1.indentedIn then { e1 with indentedIn := false } else ({ e1 with indentedIn := false }).nl
+
+/-- `EncodeToken(StartElement)` printing `text`; false: it returned an error (`panicOnErr` panics). -/
+def encodeStart (e : XmlEnc) (tag : Nat) (text : Bytes) : XmlEnc × Bool :=
+  if e.closed then (e, false)                       -- "use of closed Encoder"
+  else
+    let e1 := ({ e with tags := tag :: e.tags }).indentIn
+    ({ e1 with pend := e1.pend ++ text }, true)
+
+/-- `EncodeToken(EndElement)`. -/
+def encodeEnd (e : XmlEnc) (tag : Nat) (text : Bytes) : XmlEnc × Bool :=
+  if e.closed then (e, false)
+  else
+    match e.tags with
+    | [] => (e, false)                              -- "end tag without start tag"
+    | t :: rest =>
+      if t ≠ tag then (e, false)                    -- "does not match start tag"
+      else
+        let e1 := ({ e with tags := rest }).indentOut
+        ({ e1 with pend := e1.pend ++ text }, true)
+
+end XmlEnc
+
+/-- the stateless part of the text writers: the text of a token. (For the XML writer: the start and end tags
+    as `xml.Encoder` prints them, `<Name type="…" value="…">` and `</Name>`.) -/
+structure Render where
+  xmlStart   : Nat → Bytes            -- `Struct(tag)`: `<Name>` or `<TTLV tag="0x…">`
+  xmlEnd     : Nat → Bytes
+  xmlLeaf    : Item → Bytes
+  xmlLeafEnd : Item → Bytes
+  jsonHead   : Nat → Nat → Bytes      -- tag, type code ↦ `{"tag": "…", "type": "…", "value": `
+  jsonVal    : Item → Bytes
+  textHead   : Nat → Nat → Bytes      -- `Name (Type): `
+  textVal    : Item → Bytes
+
+/-- state of an `Encoder` between two calls. -/
 structure Encoder where
-  cell   : Option Ver      -- `extension.version`, shared with every nested Encoder made by `Struct`
-  buf    : List Item
-  opened : Nat             -- structures begun and never ended (only after an aborted call)
-  closed : Bool            -- OLD xmlWriter only: `xml.Encoder.Close()` was called and the encoder not replaced
-  deriving Repr, Inhabited
+  be   : Backend
+  cell : Option Ver := none         -- `extension.version`
+  buf  : GoBuf := {}
+  xml  : XmlEnc := {}               -- XML back end only
+  deriving Repr, Inhabited, DecidableEq
 
 /-- `NewTTLVEncoder()` / `NewXMLEncoder()` / `NewJSONEncoder()` / `NewTextEncoder()`. -/
-def fresh : Encoder := { cell := none, buf := [], opened := 0, closed := false }
+def fresh (be : Backend) : Encoder := { be := be }
+
+/-- one call on the `writer` interface. -/
+inductive WCall where
+  | leaf (it : Item)        -- `Integer` … `Interval` (the item is not a structure)
+  | «open» (tag : Nat)      -- `Struct(tag, f)` up to the call of `f`
+  | close                   -- … and after `f` has returned
+  deriving Repr, Inhabited
+
+/-- what an open `Struct` call keeps on the Go stack. `off`: binary — where the length placeholder is;
+    JSON — `originalLen`; text — `oLen`. The nesting depth (`indent` of the JSON / text writer copies) is the
+    number of frames. -/
+structure SFrame where
+  tag : Nat
+  off : Nat
+  deriving Repr, Inhabited, DecidableEq
+
+/-- `,\n` after a JSON element that is not at top level (`jsonWriter.endElem`). -/
+def jsonSep (d : Nat) : Bytes := if d > 0 then [44, 10] else []
+
+/-- `... empty ...` (textWriter.Struct). -/
+def emptyMark : Bytes := [46, 46, 46, 32, 101, 109, 112, 116, 121, 32, 46, 46, 46]
+
+/-- `textWriter.startElem`: a newline unless THE BUFFER IS EMPTY. -/
+def textStart (R : Render) (b : GoBuf) (d tag ty : Nat) : Bytes :=
+  (if b.vis.length > 0 then [10] else []) ++ ind d ++ R.textHead tag ty
+
+/-- `xml.Encoder.Flush`. -/
+def flushXml (st : Encoder) : Encoder :=
+  { st with buf := st.buf.append st.xml.pend, xml := { st.xml with pend := [] } }
+
+/-- a scalar, at nesting depth `d`. -/
+def wLeaf (R : Render) (st : Encoder) (d : Nat) (it : Item) : Encoder × Bool :=
+  match st.be with
+  | .ttlv => ({ st with buf := st.buf.append (enc it) }, true)
+  | .json =>
+    ({ st with buf := st.buf.append (ind d ++ R.jsonHead it.tag it.ty ++ R.jsonVal it ++ [125] ++ jsonSep d) },
+     true)
+  | .text => ({ st with buf := st.buf.append (textStart R st.buf d it.tag it.ty ++ R.textVal it) }, true)
+  | .xml =>
+    -- xmlWriter.encode: start tag; Flush; l := buf.Len(); end tag; Flush; buf.Truncate(l-1); "/>"
+    let r1 := st.xml.encodeStart it.tag (R.xmlLeaf it)
+    if !r1.2 then ({ st with xml := r1.1 }, false)
+    else
+      let s1 := flushXml { st with xml := r1.1 }
+      let l := s1.buf.vis.length
+      let r2 := s1.xml.encodeEnd it.tag (R.xmlLeafEnd it)
+      if !r2.2 then ({ s1 with xml := r2.1 }, false)
+      else
+        let s2 := flushXml { s1 with xml := r2.1 }
+        ({ s2 with buf := (s2.buf.truncate (l - 1)).append [47, 62] }, true)
+
+/-- `Struct(tag, f)` up to the call of `f`, at depth `d`: the new state and the frame. -/
+def wOpen (R : Render) (st : Encoder) (d : Nat) (tag : Nat) : Encoder × SFrame × Bool :=
+  match st.be with
+  | .ttlv =>
+    -- writeTag; writeType; off := len(buf); writeLength(0)
+    let b1 := st.buf.append (tag3 tag ++ [1])
+    ({ st with buf := b1.append (be32 0) }, ⟨tag, b1.vis.length⟩, true)
+  | .json =>
+    let b1 := st.buf.append (ind d ++ R.jsonHead tag 1 ++ [91, 10])
+    ({ st with buf := b1 }, ⟨tag, b1.vis.length⟩, true)
+  | .text =>
+    let b1 := st.buf.append (textStart R st.buf d tag 1)
+    ({ st with buf := b1 }, ⟨tag, b1.vis.length⟩, true)
+  | .xml =>
+    let r := st.xml.encodeStart tag (R.xmlStart tag)
+    ({ st with xml := r.1 }, ⟨tag, 0⟩, r.2)
+
+/-- `Struct(tag, f)` after `f` has returned; `d` is the depth of the structure itself. -/
+def wClose (R : Render) (st : Encoder) (d : Nat) (fr : SFrame) : Encoder × Bool :=
+  match st.be with
+  | .ttlv =>
+    -- length := len(buf) - off - 4; binary.BigEndian.AppendUint32(buf[:off], uint32(length))
+    ({ st with buf := st.buf.patch fr.off (be32 (st.buf.vis.length - fr.off - 4)) }, true)
+  | .json =>
+    let n := st.buf.vis.length
+    let b1 :=
+      if n > fr.off then ((st.buf.truncate (n - 2)).append ([10] ++ ind d ++ [93]))   -- drop the last ",\n"
+      else (st.buf.truncate (n - 1)).append [93]                                        -- "[\n" becomes "[]"
+    ({ st with buf := b1.append ([125] ++ jsonSep d) }, true)
+  | .text =>
+    if fr.off = st.buf.vis.length then
+      ({ st with buf := st.buf.append ([10] ++ ind (d + 1) ++ emptyMark) }, true)
+    else (st, true)
+  | .xml =>
+    let r := st.xml.encodeEnd fr.tag (R.xmlEnd fr.tag)
+    if !r.2 then ({ st with xml := r.1 }, false) else (flushXml { st with xml := r.1 }, true)
+
+/-- one writer call with the frames of the enclosing `Struct` calls (innermost first). A `close` without an
+    open structure does not exist in Go (`Struct` is one call); it is a no-op here. -/
+def wCall (R : Render) (st : Encoder) (fs : List SFrame) : WCall → Encoder × List SFrame × Bool
+  | .leaf it => let r := wLeaf R st fs.length it; (r.1, fs, r.2)
+  | .open tag => let r := wOpen R st fs.length tag; (r.1, r.2.1 :: fs, r.2.2)
+  | .close =>
+    match fs with
+    | [] => (st, [], true)
+    | fr :: rest => let r := wClose R st rest.length fr; (r.1, rest, r.2)
+
+/-- the calls of one `enc.Any` / `enc.Struct(…)` in order, until one of them panics. -/
+def runCalls (R : Render) : Encoder → List SFrame → List WCall → Encoder × List SFrame × Bool
+  | st, fs, [] => (st, fs, true)
+  | st, fs, c :: cs =>
+    let r := wCall R st fs c
+    if r.2.2 then runCalls R r.1 r.2.1 cs else r
+
+mutual
+  /-- the writer calls that encode an item. -/
+  def flatten : Item → List WCall
+    | .struct tag cs => .open tag :: (flattenL cs ++ [.close])
+    | it => [.leaf it]
+  def flattenL : List Item → List WCall
+    | [] => []
+    | x :: xs => flatten x ++ flattenL xs
+end
 
 structure Msg where
   d   : Nat        -- dynamic type (index into `Schema.dyns`)
@@ -196,71 +441,111 @@ structure Msg where
   v   : Val
   deriving Repr, Inhabited
 
+/-- what an `encode` call that PANICS half-way (and is recovered by the caller) did before: the writer calls it
+    made (open structures stay open) and the cell it left. The model does not compute them: they are an
+    arbitrary parameter of the operation, and the theorems hold for all of them. -/
+structure Junk where
+  cell  : Option Ver := none
+  calls : List WCall := []
+  deriving Repr, Inhabited
+
 inductive Op where
-  | encode (m : Msg) (junk : Junk)     -- `junk` is used only if the call panics
+  | encode (m : Msg) (junk : Junk)          -- `enc.Any(m)` / `enc.TagAny(tag, m)`; `junk` is used only if the call panics
+  | raw (calls : List WCall) (abort : Bool) -- the writer API used directly (`enc.Integer`, `enc.Struct(tag, f)`, …);
+                                            -- `abort`: a panic after these calls, recovered by the caller
   | clear
   | bytes
   deriving Repr, Inhabited
 
+/-- what the caller observes of one call: did it return normally, and for `Bytes()` the content returned. -/
+structure Obs where
+  ok  : Bool
+  out : Option Bytes := none
+  deriving Repr, Inhabited, DecidableEq
+
 def encFuel : Nat := 100000
 
-/-- the items `enc.Any(m)` appends when started with version cell `cell`, and the cell it leaves:
+/-- the items `enc.Any(m)` writes when started with version cell `cell`, and the cell it leaves:
     exactly the run `marshal` does (Model/Plan.lean), from an arbitrary cell. -/
 def encodeFrom (S : Schema) (m : Msg) (cell : Option Ver) : Res EncSt :=
   let dy := S.dyn m.d
   encK S encFuel dy.kind (if m.tag = 0 then dy.defTag else m.tag) m.v cell
 
-/-- `enc.Any(m)` / `enc.TagAny(tag, m)`; the flag tells whether the call returned normally. -/
-def encodeOp (S : Schema) (st : Encoder) (m : Msg) (junk : Junk) : Encoder × Bool :=
-  if st.closed then (st, false)         -- "use of closed Encoder": the first token written panics
-  else
-    match encodeFrom S m st.cell with
-    | .ok (items, c1) => ({ st with cell := c1, buf := st.buf ++ items }, true)
-    | _ => ({ st with cell := junk.cell, buf := st.buf ++ junk.items, opened := st.opened + junk.opened },
-            false)
+/-- `enc.Any(m)` / `enc.TagAny(tag, m)`. -/
+def encodeOp (R : Render) (S : Schema) (st : Encoder) (m : Msg) (junk : Junk) : Encoder × Bool :=
+  match encodeFrom S m st.cell with
+  | .ok (items, c1) =>
+    let r := runCalls R st [] (flattenL items)
+    if r.2.2 then ({ r.1 with cell := c1 }, true) else (r.1, false)
+  | _ =>
+    let r := runCalls R st [] junk.calls
+    ({ r.1 with cell := junk.cell }, false)
+
+/-- the writer API used directly. The frames of structures still open at a panic are gone with the stack. -/
+def rawOp (R : Render) (st : Encoder) (calls : List WCall) (abort : Bool) : Encoder × Bool :=
+  let r := runCalls R st [] calls
+  (r.1, r.2.2 && !abort && r.2.1.isEmpty)
 
 /-- `enc.Clear()`: `enc.extension.version = nil; enc.w.Clear()`.
     ttlvWriter: `buf = buf[:0]`; jsonWriter / textWriter: `buf.Reset()`;
-    xmlWriter (since /repo 55f108f): `buf.Reset(); w = xml.NewEncoder(buf); w.Indent(…)` — the previous
-    `xml.Encoder` is dropped, whatever elements an aborted call left open in it.
-    Every writer ends up in the state of a new one. -/
-def clearOp (_b : Backend) (_st : Encoder) : Encoder × Bool := (fresh, true)
+    xmlWriter (since /repo 55f108f): `buf.Reset(); w = xml.NewEncoder(buf); w.Indent("", "    ")` — the
+    previous `xml.Encoder` is dropped with whatever an aborted call left in it.
+    The backing array, its capacity and its content stay. -/
+def clearOp (st : Encoder) : Encoder × Bool :=
+  match st.be with
+  | .xml => ({ st with cell := none, buf := st.buf.reset, xml := {} }, true)
+  | _ => ({ st with cell := none, buf := st.buf.reset }, true)
+
+/-- `enc.Bytes()`: xmlWriter flushes its `xml.Encoder` first; the result is `buf[0:len]` ITSELF, not a copy. -/
+def bytesOp (st : Encoder) : Encoder :=
+  match st.be with
+  | .xml => flushXml st
+  | _ => st
+
+/-- the slice `Bytes()` returns in state `st` (after `bytesOp`). -/
+def Encoder.view (st : Encoder) : View := ⟨st.buf.gen, st.buf.vis.length, st.buf.vis⟩
 
 /-- The OLD `xmlWriter.Clear` (before 55f108f), kept to document what the fix repaired:
     `panicOnErr(w.Close()); buf.Reset(); w = xml.NewEncoder(buf)` — `Close` reports unclosed elements as an
-    error AFTER marking the encoder closed (so `Clear` panicked and the encoder stayed closed), and returns
-    nil on an encoder already closed. -/
+    error AFTER marking the encoder closed (so `Clear` panicked half-way, the version already reset, and the
+    encoder stayed closed), and returns nil on an encoder already closed. -/
 def oldXmlClearOp (st : Encoder) : Encoder × Bool :=
-  if st.closed then (fresh, true)
-  else if st.opened > 0 then ({ st with cell := none, closed := true }, false)
-  else (fresh, true)
+  if st.xml.closed then ({ st with cell := none, buf := st.buf.reset, xml := {} }, true)
+  else if st.xml.tags ≠ [] then ({ st with cell := none, xml := { st.xml with closed := true } }, false)
+  else ({ st with cell := none, buf := (flushXml st).buf.reset, xml := {} }, true)
 
 /-- one call, for a given implementation `clr` of `Clear`. -/
-def stepOpWith (clr : Encoder → Encoder × Bool) (S : Schema) (st : Encoder) : Op → Encoder × Bool
-  | .encode m junk => encodeOp S st m junk
-  | .clear => clr st
-  | .bytes => (st, true)               -- `Bytes()` (xml: `Flush`) changes nothing observable
+def stepOpWith (clr : Encoder → Encoder × Bool) (R : Render) (S : Schema) (st : Encoder) : Op → Encoder × Obs
+  | .encode m junk => let r := encodeOp R S st m junk; (r.1, ⟨r.2, none⟩)
+  | .raw calls abort => let r := rawOp R st calls abort; (r.1, ⟨r.2, none⟩)
+  | .clear => let r := clr st; (r.1, ⟨r.2, none⟩)
+  | .bytes => let s := bytesOp st; (s, ⟨true, some s.buf.vis⟩)
 
-/-- run a history; the flags of the calls in order (true = returned normally). -/
-def runOpsWith (clr : Encoder → Encoder × Bool) (S : Schema) : Encoder → List Op → Encoder × List Bool
+/-- run a history; what the caller observed, call by call. -/
+def runOpsWith (clr : Encoder → Encoder × Bool) (R : Render) (S : Schema) :
+    Encoder → List Op → Encoder × List Obs
   | st, [] => (st, [])
   | st, op :: ops =>
-    let r := stepOpWith clr S st op
-    let r' := runOpsWith clr S r.1 ops
+    let r := stepOpWith clr R S st op
+    let r' := runOpsWith clr R S r.1 ops
     (r'.1, r.2 :: r'.2)
 
-/-- the library as it is: back end `b`. -/
-def stepOp (S : Schema) (b : Backend) (st : Encoder) (op : Op) : Encoder × Bool :=
-  stepOpWith (clearOp b) S st op
+/-- the library as it is. -/
+def stepOp (R : Render) (S : Schema) (st : Encoder) (op : Op) : Encoder × Obs := stepOpWith clearOp R S st op
 
-def runOps (S : Schema) (b : Backend) (st : Encoder) (ops : List Op) : Encoder × List Bool :=
-  runOpsWith (clearOp b) S st ops
+def runOps (R : Render) (S : Schema) (st : Encoder) (ops : List Op) : Encoder × List Obs :=
+  runOpsWith clearOp R S st ops
 
 /-- the XML encoder with the old `Clear`. -/
-def runOpsOldXml (S : Schema) (st : Encoder) (ops : List Op) : Encoder × List Bool :=
-  runOpsWith oldXmlClearOp S st ops
+def runOpsOldXml (R : Render) (S : Schema) (st : Encoder) (ops : List Op) : Encoder × List Obs :=
+  runOpsWith oldXmlClearOp R S st ops
 
-/-- `enc.Bytes()` of the binary encoder. -/
-def Encoder.bytes (st : Encoder) : Bytes := encList st.buf
+/-- two encoder states that no sequence of calls can tell apart: same back end, version cell, visible buffer
+    content and (XML) `xml.Encoder` state. The capacity, the stale content of the backing array and its
+    identity are NOT compared. -/
+def Eqv (s1 s2 : Encoder) : Prop :=
+  s1.be = s2.be ∧ s1.cell = s2.cell ∧ s1.buf.vis = s2.buf.vis ∧ (s1.be = .xml → s1.xml = s2.xml)
+
+instance (s1 s2 : Encoder) : Decidable (Eqv s1 s2) := by unfold Eqv; exact inferInstance
 
 end Kmip.Cache
